@@ -31,6 +31,15 @@ Definition run_c17 (args : list V) : list V :=
       | RitDone t => [VS (bs "ok"); e_totals t]
       | RitRefused => [verr "rit"]
       end
+    else if is_op o "rit2" then      (* RemoveIncludedTaxes, serialise, parse, calculate again *)
+      match remove_included_taxes dd, rit_document dd with
+      | RitDone _, Some d1 =>
+        match calculate d1 with
+        | Totals t => [VS (bs "ok"); e_totals t]
+        | _ => [verr "rit"]
+        end
+      | _, _ => [verr "rit"]
+      end
     else if is_op o "recalc" then
       match as_input dd with
       | Some d1 => e_result (calculate d1)
